@@ -111,6 +111,32 @@ func CloseQuit(quit chan<- struct{}) {
 	w.mu.Unlock()
 }
 
+// WaitDone replaces a bare `<-done` in the scratch copy of gxz: the main task
+// waits for the handler goroutine to finish. If the handler has taken a
+// signal it now runs to its end (it is parked at a gate and only the main task
+// could grant it steps - which it cannot while it blocks on a channel); the
+// process then has exited through the handler and main unwinds. Otherwise the
+// handler leaves through its quit branch and the receive returns at once.
+func WaitDone(done <-chan struct{}) {
+	w := world()
+	w.mu.Lock()
+	s := w.sig
+	if s != nil && s.delivered && !s.handlerGone {
+		for !s.handlerGone && !w.Dead && !w.Exited {
+			s.mainSince = 0
+			s.handlerOps++
+			w.mu.Unlock()
+			s.handlerGo <- struct{}{}
+			<-s.handlerAt
+			w.mu.Lock()
+		}
+		w.mu.Unlock()
+		panic(Killed{})
+	}
+	w.mu.Unlock()
+	<-done
+}
+
 // task reports which task is running (0 main, 1 signal handler). Caller holds
 // no lock or w.mu; only valid fields are read.
 func (w *World) task() int {
